@@ -220,6 +220,24 @@ func (c *Ctx) namedType(pkgRel, name string) *types.Named {
 	return n
 }
 
+// fieldOpt is field without the undecided note when the field is missing.
+func (c *Ctx) fieldOpt(pkgRel, typ, field string) *types.Var {
+	n := c.namedType(pkgRel, typ)
+	if n == nil {
+		return nil
+	}
+	st, ok := n.Underlying().(*types.Struct)
+	if !ok {
+		return nil
+	}
+	for i := 0; i < st.NumFields(); i++ {
+		if st.Field(i).Name() == field {
+			return st.Field(i)
+		}
+	}
+	return nil
+}
+
 func (c *Ctx) field(pkgRel, typ, field string) *types.Var {
 	n := c.namedType(pkgRel, typ)
 	if n == nil {
